@@ -8,7 +8,7 @@ TAB-STEP   one-step tables of Chars/CharIndices next/next_back (boundary search 
            offsets; ISO for the R* types; as_str.    TAB-BOUND  one-iteration relation of the two boundary
            searches (move by one, stop on the forgiving boundary predicate).
 """
-from .. import bits, byteset, sym, table
+from .. import bits, byteset, ivset, sym, table
 from ..sym import show
 from ..table import Row, eq, ne, Int
 
@@ -51,7 +51,7 @@ def cond_set_wide(paths, hole, lo=0, hi=(1 << 32) - 1):
         if t is None:
             out.append((lo, hi))
         else:
-            out.extend(byteset.trueset_wide(t, hole, lo, hi))
+            out.extend(ivset.trueset(t, hole, 32, ((lo, hi),)))
     merged = []
     for a, b in sorted(out):
         if merged and merged[-1][1] >= a - 1:
@@ -74,6 +74,15 @@ def scalar(ctx, prog):
         ctx.violation("D3-SCALAR", key, "cannot compute the accepted set: %s" % e, b.file())
         return
     want = ((0, 0xD7FF), (0xE000, 0x10FFFF))
+    # from_u32 is total: an input for which it panics (an arithmetic overflow check on the way to the answer) gets no answer at all
+    for p in paths:
+        if p.kind in ("panic", "diverge"):
+            try:
+                bad = cond_set_wide([p], ("p", 1))
+            except byteset.Opaque:
+                bad = ((0, (1 << 32) - 1),)
+            if bad:
+                ctx.violation("D3-SCALAR", key + "|panics", "from_u32 panics for %s" % [(hex(a), hex(c)) for a, c in bad[:4]], b.file())
     if got != want:
         ctx.violation("D3-SCALAR", key + "|set", "from_u32 returns Some for %s; Unicode scalar values are %s" % (
             [(hex(a), hex(c)) for a, c in got], [(hex(a), hex(c)) for a, c in want]), b.file())
